@@ -202,7 +202,9 @@ def run(repo):
         for letters, body, node, prelude in letter_branches(fi):
             # skip the objective routing tests (their bodies only append to a list)
             txt = ' '.join(ntext(s) for s in body)
-            if all(isinstance(s, ast.Expr) and '.append(' in ntext(s) for s in body) and 'dvar' not in txt \
+            if all((isinstance(s, ast.Expr) and '.append(' in ntext(s)) or
+                   (isinstance(s, ast.Assign) and isinstance(s.value, ast.List) and not s.value.elts)
+                   for s in body) and 'dvar' not in txt \
                     and 'affine' not in txt:
                 continue
             uses = classify(prelude + body)
